@@ -116,7 +116,8 @@ def dijkstra_edges(
         adj[u].append((v, w))
 
     if target is not None:
-        return dijkstra(source, target, lambda s: adj[s])
+        # every node is settled at most once: with this budget the generic routine's iteration limit never binds
+        return dijkstra(source, target, lambda s: adj[s], max_iter=n_nodes + 1)
 
     # All-distances mode: minimal Dijkstra to collect distances
     dist: dict[int, float] = {source: 0.0}
